@@ -660,7 +660,18 @@ def check_C11(tier, seed):
     lib.ensure_mirror()
 
     # -R: tables only (the support code is not copied 40 000 times); parsing, fixing and code generation are the same
-    evs = run_asn1c_batch([Module(s["mod"]).text() for s in scns], flags=("-R",))
+    def source(s):
+        t = Module(s["mod"]).text()
+        f = s["fault"]
+        if not f.startswith("import-"):
+            return t
+        t = t.replace("BEGIN\n", "BEGIN\n\nIMPORTS Ext FROM LX;\n", 1)
+        exports = {"import-ok": "EXPORTS Ext;\n", "import-ok-exports-all": "", "import-no-symbol": "", "import-not-exported": "EXPORTS Other;\n"}
+        if f != "import-no-module":
+            body = "Other ::= BOOLEAN\n" + ("" if f == "import-no-symbol" else "Ext ::= OCTET STRING\n")
+            t += "\nLX DEFINITIONS ::= BEGIN\n%s%sEND\n" % (exports[f], body)
+        return t
+    evs = run_asn1c_batch([source(s) for s in scns], flags=("-R",))
     for s, r in zip(scns, evs):
         r.update({"id": s["id"], "a": "Asn1c"})
     mism, tot = lib.judge("MC_Legal", None, scns, evs, constants=consts, shards=8)
